@@ -765,7 +765,12 @@ func c10Run(c *Case) []any {
 	if route == nil && routeL == nil {
 		return []any{line}
 	}
-	if route != nil && routeL != nil {
+	// the text of an error quotes the value at every level: quadratic (and worse in multi-error mode) in the nesting depth.
+	// Errors are read, and the repeated passes (legacy route, second pass) made, on traffic nested at most 500 deep; deeper
+	// traffic (seconds per validation in multi-error mode) exercises each validator once.
+	deep := func(b []byte) bool { return bytes.Count(b, []byte("{"))+bytes.Count(b, []byte("[")) > 500 }
+	readable := !deep(reqSpec.body) && !deep(resp.body)
+	if readable && route != nil && routeL != nil {
 		// the legacy router binds path parameters its own way: validate with its route as well (fresh request)
 		if reqL, e := reqSpec.build(); e == nil {
 			inL := &openapi3filter.RequestValidationInput{Request: reqL, PathParams: ppL, Route: routeL, Options: opts}
@@ -781,10 +786,6 @@ func c10Run(c *Case) []any {
 	}
 	var verr error
 	obs["validate_request"] = c10Outcome(func() error { verr = openapi3filter.ValidateRequest(context.Background(), input); return verr }, &msgs)
-	// the text of an error quotes the value at every level: quadratic (and worse in multi-error mode) in the nesting depth.
-	// Errors are read on traffic nested at most 500 deep; deeper traffic exercises the validators only.
-	deep := func(b []byte) bool { return bytes.Count(b, []byte("{"))+bytes.Count(b, []byte("[")) > 500 }
-	readable := !deep(reqSpec.body) && !deep(resp.body)
 	var cerr error
 	if verr != nil {
 		obs["convert_errors"] = c10Outcome(func() error { cerr = openapi3filter.ConvertErrors(verr); return nil }, &msgs)
@@ -857,7 +858,7 @@ func c10Run(c *Case) []any {
 	}
 	// the same document and routers serve the next request: the same traffic once more (whatever the first pass left behind
 	// in the loaded document - installed defaults, compiled patterns - is what the second pass meets)
-	if req4, e := reqSpec.build(); e == nil {
+	if req4, e := reqSpec.build(); e == nil && readable {
 		in4 := &openapi3filter.RequestValidationInput{Request: req4, PathParams: pp, Route: route, Options: input.Options}
 		obs["validate_again"] = c10Outcome(func() error {
 			e1 := openapi3filter.ValidateRequest(context.Background(), in4)
@@ -915,7 +916,7 @@ type c10Matcher struct{}
 func (c10Matcher) MatchString(string) bool { return false }
 
 func init() {
-	drivers["C10"] = &Driver{Run: c10Run, PerCaseTimeoutMs: 8000, Abnormal: func(c *Case, kind string) []any {
+	drivers["C10"] = &Driver{Run: c10Run, PerCaseTimeoutMs: 20000, Abnormal: func(c *Case, kind string) []any {
 		var raw map[string]any
 		c.Decode(&raw)
 		return []any{map[string]any{"case": c.Idx, "c": raw, "obs": map[string]any{"doc": "ok", "validate_request": kind}}}
